@@ -64,14 +64,14 @@ impl Prop for C04P {
                 }
             }
             Tier::Thorough => {
-                for pc in 1..=5 {
-                    for pr in 1..=5 {
+                for pc in 1..=6 {
+                    for pr in 1..=6 {
                         for (s, e) in windows_nonempty(pc, pr) {
                             v.push(Recv::window(pc, pr, s, e).enc());
                         }
                     }
                 }
-                for (c, r) in crate::engine::util::shapes(5) {
+                for (c, r) in crate::engine::util::shapes(6) {
                     if c > 0 {
                         v.push(Recv::direct_long(c, r).enc());
                     }
@@ -163,7 +163,7 @@ impl Prop for C04P {
     fn bound(&self, tier: Tier) -> String {
         tier.pick(
             "parents 4x4, 5x5, 5x3, 3x5, 2x4, 4x2, 1x5, 5x1 (all non-empty windows), views over a longer slice up to 4x4, nested windows inside the centre of a 5x5; copy_within rectangles up to 3x3",
-            "all parents up to 5x5 (all non-empty windows), nested windows of 5x5, 4x5, 5x4 parents; all copy_within rectangles",
+            "all parents up to 6x6 (all non-empty windows), nested windows of 5x5, 4x5, 5x4 parents; copy_within rectangles up to 5x5",
         )
         .into()
     }
